@@ -64,13 +64,37 @@ def handleC02 (j : Json) : Except String Verdict := do
               | "posref" => do pure (some (refStepR dflt (d + 1) tb (ranksPaths Rb) (at_ ++ [← fInt opJ "c"])))
               | "clear" => pure (some (clearStepR d tb (ranksPaths Rb) at_))
               | "assignf" => do pure (some (assignStepR dflt d tb (ranksPaths Rb) at_ (treeArgOfJson (← field opJ "f"))))
+              | "populate" => do
+                match (← parseMutOp dflt opJ) with
+                | some (.populate q a lf inn) => pure (some (populateStepR dflt d tb (ranksPaths Rb) q a lf inn))
+                | _ => pure none
+              | "denseref" => do
+                -- iterRangeShapeRef(s, e, step): getPayloadRef(c) for every visited coordinate
+                let s0 ← fInt opJ "s"; let e0 ← fInt opJ "e"; let stp ← fNat opJ "step"
+                let n := ((e0 - s0).toNat + stp - 1) / stp
+                let cs := (List.range n).map (fun i => s0 + Int.ofNat (i * stp))
+                let refs := cs.foldl (fun (st : T (d + 1) × RankLists Int) c => refStepR dflt (d + 1) st.1 st.2 (at_ ++ [c]))
+                  (tb, ranksPaths Rb)
+                -- the tree also carries the values written through the references (C01's model of the step)
+                match (← parseMutOp dflt opJ) with
+                | some mop => pure (some ((mstep dflt d tb mop).1, refs.2))
+                | none => pure (some refs)
+              | "get" | "query" => pure (some (tb, ranksPaths Rb))
               | _ => pure none)
             match model with
             | some (mt, mR) =>
-              if !(treeEq (d + 1) mt after) || !(sameRanks mR (ranksPaths Ra)) then
+              -- populate appends in creation order, which the model predicts exactly
+              let ranksOk := if k == "populate" then decide (mR = ranksPaths Ra) else sameRanks mR (ranksPaths Ra)
+              if !(treeEq (d + 1) mt after) || !ranksOk then
                 okAgree := false
                 if why.isEmpty then why := s!"{k}: tree or rank lists after the step differ from the model"
-            | none => if !tags.contains "bookkeeping-unmodelled" then tags := "bookkeeping-unmodelled" :: tags
+            | none =>
+              -- in-place arithmetic acts on leaf fibers only: the rank lists must not move
+              if ["iadd", "imul", "iaddf", "imulf"].contains k then
+                if !(decide (ranksPaths Rb = ranksPaths Ra)) then
+                  okAgree := false
+                  if why.isEmpty then why := s!"{k}: rank lists changed by leaf-level in-place arithmetic"
+              else if !tags.contains "bookkeeping-unmodelled" then tags := "bookkeeping-unmodelled" :: tags
         | _, _ => pure ()
       pure { agree := okAgree, spec := okSpec, tags, why }
   | o => throw s!"C02: unknown op {o}"
